@@ -453,7 +453,16 @@ def amax(a, axis=None, out=None, keepdims=False, **k):
 
 @_implements(_np.clip)
 def clip(a, a_min=None, a_max=None, **k):
+    merge = getattr(ctx().opts, "merge_clip", False) if E._CTX is not None else False
+
     def f(x):
+        if merge and isinstance(x, Sym):
+            # value-level clip as an if-then-else term: no fork (the two saturated cases stay inside the term)
+            if a_min is not None:
+                x = (x < a_min).ite(a_min, x)
+            if a_max is not None:
+                x = (x > a_max).ite(a_max, x)
+            return x
         if a_min is not None and bool(x < a_min):
             return a_min
         if a_max is not None and bool(x > a_max):
@@ -675,7 +684,10 @@ class NpProxy(types.ModuleType):
             if all(isinstance(v, (int, SymInt, _np.integer)) for v in (start, stop, step)):
                 return _np.arange(int(start), int(stop), int(step), dtype=dtype)
             # real-valued arange: length = ceil((stop - start) / step), forked
-            n = _as_real((stop - start) / step).ceil()
+            q = _as_real((stop - start) / step)
+            if isinstance(q, SymReal) and E._CTX is not None:
+                q = ctx().simp(q, min_size=4)  # certified simplification: (rmax - rmax/(k+1)) / (rmax/(k+1)) -> k
+            n = q.ceil()
             n = int(n)
             n = max(n, 0)
             return SArr([start + step * i for i in range(n)], _F64)
